@@ -72,6 +72,22 @@ CLAIMS = {
   text="Lean 4 theorems C19_once, C19_repeat_seq, C19_repeat_spacing, C19_never_early(_repeat,_nth), C19_cancelled_stays, C19_done_stays, C19_closed_sound, C19_decline_stops, clock/timer lemmas: for EVERY action list of a legal executor (any number of tasks, spurious polls, any order, any clock advance) over the scheduler model (schedule, Remote::poll, OnceTask, RepeatTask, handles); lock level (C19T): unsubscribe and poll exclude each other on the handle mutex. Correspondence: the same model drives suite `time` against the real scheduler code through hook H1 with cancellation injected at every phase and arbitrary fire/poll orders.",
   note=COMMON_NOTE + "The scheduler-only transition system abstracts task bodies (their own scheduling effects are separate actions); SubscribeReturn handles' is_closed is covered by the correspondence only.",
   technique="Lean 4 proof (invariants over all executor histories) + differential correspondence check on a virtual clock"),
+ "C09": dict(
+  text="Executable Lean chain model of debounce / throttle (three edges) / buffer_with_time / buffer_with_count_and_time over the scheduler model, tied to the real crate on the virtual clock (prompt unit-step schedules with every gap pattern around the window, and arbitrary fire/poll orders); theorems C09_flush_nonempty, C09_buffer_bounded, C09_sample (list-level sample semantics); oracle on the implementation: only source items, each at most once, in order; buffers non-empty and within the limit; concatenation = source on completion; debounce/throttle characterisation under prompt schedules.",
+  note=COMMON_NOTE + "Partial: the subsequence theorem over whole chain runs is not yet proved in Lean; that clause rests on the validated executable model + the implementation oracle.",
+  technique="Lean 4 executable model with differential correspondence on a virtual clock + implementation oracle (proof part: buffer/sample lemmas)"),
+ "C13": dict(
+  text="Lean 4 theorems C13_lazy, C13_independent, C13_once_per_subscription over the multi-subscription model (a pipeline description is immutable; every actual_subscribe instantiates its own observer states): building does nothing; every subscription's log is the log of a freshly instantiated pipeline whatever other subscriptions exist; subscription-time closures run once per subscription. Correspondence: ONE real pipeline value is built and clones are subscribed 2-4 times, successively and nested, over the whole synchronous catalogue; oracle: laziness, identical logs for cold pipelines, closure-call counts.",
+  note=COMMON_NOTE + "The theorems are short because the model has no shared operator state — that IS the claim; its tie to the code is the correspondence. Nested subscription is exercised for cold pipelines only.",
+  technique="Lean 4 proof (induction over subscription lists) + differential correspondence check with repeated and nested subscriptions"),
+ "C16": dict(
+  text="Lean 4 theorems C16_forward_op1 (is_finished is forwarded through every chain of intermediate operators), C16_take_closed/_takeWhile_closed/_contains_closed, C16_tick_declines, C16_iter_stops_when_finished over the chain model; correspondence on the virtual clock: interval as main input and as second input of every two-input operator under chains of intermediate operators and every early-terminating operator, counting iterators with `pulls` observed; oracle: no live task one period after the subscriber's terminal; no pull beyond the model's.",
+  note=COMMON_NOTE + "Known finding: skip_until's notifier observer answers is_finished()=false, so a producer in that position is never retired. from_stream producers are not in the suite yet.",
+  technique="Lean 4 proof (structural lemmas on `fin`) + executable model with differential correspondence + implementation oracle"),
+ "C18": dict(
+  text="Three-way comparison on single-threaded histories: every case of the pipeline, time, flatten, finalize, share, subject and group_by populations is run with the local and with the thread-safe types of the real crate; the two traces must be identical and agree with the single Lean model (theorems C18_equiv, C18_equiv_time record that the model has one definition for both forms).",
+  note=COMMON_NOTE + "The Lean statement is shallow by design (one macro generates both forms); the assurance is the sampled differential check.",
+  technique="differential equivalence check between the two real implementations and the Lean model (Lean statement: definitional)"),
 }
 
 def chk(pid, c):
